@@ -247,6 +247,11 @@ func (tp *TableParser) parseCell(cell tableCellXML) ParsedTableCell {
 	// Parse column span (gridSpan)
 	if props.GridSpan.Val != "" {
 		if span, err := strconv.Atoi(props.GridSpan.Val); err == nil && span > 0 {
+			// A table has at most 63 columns; a larger number in the file must
+			// not size the grid
+			if span > maxGridSpan {
+				span = maxGridSpan
+			}
 			parsed.ColSpan = span
 		}
 	}
@@ -326,6 +331,9 @@ func (tp *TableParser) parseCellParagraph(p paragraphXML) parsedParagraph {
 
 	return parsed
 }
+
+// maxGridSpan bounds w:gridSpan (WordprocessingML tables have at most 63 columns).
+const maxGridSpan = 63
 
 // processVerticalMerges calculates row spans for vertically merged cells.
 func (tp *TableParser) processVerticalMerges(table *ParsedTable) {
